@@ -63,7 +63,7 @@ def planLinks (g : Graph) (t2i : List (String × Id)) :
 /-- the closure of `RunPlan` -/
 def secPlan (log : List Event) (g : Graph) (p : PlanInput) (env : Env) : Except CmdErr (Write × PlanOut) :=
   let n := p.tasks.length
-  match drawIds g.has (n + 1) env.ids [] with
+  match drawIds g.taken (n + 1) env.ids [] with
   | none => .error .idExhausted
   | some ([], _) => .error .idExhausted
   | some (epicId :: taskIds, _) =>
@@ -106,7 +106,7 @@ def runSec (log : List Event) (created : Option Id) (env : Env) (s : Sec) : Exce
     | .create isEpic epicId title body =>
       (secCreate g isEpic epicId title body env.ids (env.uuids.headD "") env.now).map fun (w, id) =>
         (w, { created := some id, uuid := env.uuids.headD "", now := env.now },
-         { env.tick with ids := dropDrawn g.has 64 env.ids, uuids := env.uuids.tail })
+         { env.tick with ids := dropDrawn g.taken 64 env.ids, uuids := env.uuids.tail })
     | .result id summary _path =>
       (secResult g (resolve id created) summary env.po env.now).map fun w => (w, { now := env.now }, env.tick)
     | .set id u =>
